@@ -1,52 +1,79 @@
 """Hand audit of the panic-capable edges reachable from the platform threads (session, timer, HTTP handlers) outside the
 rfsm-expression region (audited under C11), the XML reader (one region finding, D10) and the .rfsm reader (C18).
 Findings (D6-D9, D27) are NOT here: they are failing obligations listed in known_findings.json."""
-E = "datamodel::ecma_script::ECMAScriptDatamodel::"
-EI = "<datamodel::ecma_script::ECMAScriptDatamodel as datamodel::Datamodel>::"
-T = "<executable_content::DefaultExecutableContentTracer as executable_content::ExecutableContentTracer>::"
-MODEL_IDS = ("ids stored in the model are allocated by the reader/deserializer together with the entry they name (R04.5, W1); "
-             "callers filter the null id 0 (C01 R01.3/R01.4, Fsm::executeContent)")
 REASONS = {
-    # ---- model id accessors
-    "fsm::Fsm::get_state_by_id|assert|overflow:Sub|1": MODEL_IDS,
-    "fsm::Fsm::get_state_by_id|unwrap|unwrap|1": MODEL_IDS,
-    "fsm::Fsm::get_state_by_id_mut|assert|overflow:Sub|1": MODEL_IDS,
-    "fsm::Fsm::get_state_by_id_mut|unwrap|unwrap|1": MODEL_IDS,
-    "fsm::Fsm::get_transition_by_id|unwrap|unwrap|1": MODEL_IDS,
-    "fsm::Fsm::get_transition_by_id_mut|unwrap|unwrap|1": MODEL_IDS,
-    EI + "executeContent|unwrap|unwrap|1": MODEL_IDS,
-    "<executable_content::If as executable_content::ExecutableContent>::execute|unwrap|unwrap|1": "guarded by `self.content != 0`; " + MODEL_IDS,
-    "<executable_content::If as executable_content::ExecutableContent>::execute|unwrap|unwrap|2": "guarded by `self.else_content != 0`; " + MODEL_IDS,
-    # ---- W3C containers
-    "fsm::HashTable::<K, T>::get|unwrap|unwrap|1": "both callers (enterStates, addDescendantStatesToEnter/getEffectiveTargetStates) test has() first (C06 R06.3/R06.4)",
-    "fsm::List::<T>::tail|vec-remove|remove|1": "only caller findLCCA passes [t.source] ++ tstates, which is never empty",
-    "fsm::Queue::<T>::dequeue|unwrap|unwrap|1": "only caller mainEventLoop dequeues on the not-empty branch (C03 R03.1)",
-    # ---- session plumbing
-    "fsm::Fsm::invoke|unwrap|unwrap|5": "GlobalData.executor is set in the session thread before interpret() and never cleared",
-    "event_io_processor::scxml_event_io_processor::ScxmlEventIOProcessor::send_to_session|diverge|panic!|1": "GlobalData.executor is set in the session thread before interpret() and never cleared",
-    "fsm::Fsm::mainEventLoop|unwrap|unwrap|9": "recv() fails only when every Sender is dropped; the session's own GlobalData.externalQueue holds one for the whole run",
-    "fsm::Fsm::returnDoneEvent|diverge|panic!|1": "caller_invoke_id and parent_session_id are copied together from the Fsm built by FsmExecutor::execute_with_data*, which sets both or neither",
-    "executable_content::parse_duration_to_milliseconds|unwrap|unwrap|1": "value_result.is_err() returned above",
-    "event_io_processor::http_event_io_processor::rocket_receive_event|unwrap|unwrap|1": "param_values was set to Some on the line before when it was None",
-    "event_io_processor::http_event_io_processor::rocket_welcome|unwrap|unwrap|1": "k iterates es.sessions.keys() of the same locked map",
-    "event_io_processor::http_event_io_processor::escape_html|assert|overflow:Mul|1": "text.len() * 2 of an in-memory string cannot overflow usize",
-    # ---- executable content tracer (Debug feature)
-    T + "print_name_and_attributes|assert|overflow:Mul|1": "trace_depth is the nesting depth of executable content",
-    T + "print_name_and_attributes|assert|bounds|1": "get_type() returns one of the nine TYPE_* constants 0..=8 and TYPE_NAMES has nine entries (W1 checks the constant table)",
-    T + "print_sub_content|assert|overflow:Mul|1": "trace_depth is the nesting depth of executable content",
-    T + "print_sub_content|assert|overflow:Sub|1": "decrement pairs with the increment a few lines above in the same call",
-    T + "print_sub_content|assert|overflow:Mul|2": "trace_depth is the nesting depth of executable content",
-    "executable_content::DefaultExecutableContentTracer::trace|assert|overflow:Mul|1": "trace_depth is the nesting depth of executable content",
-    # ---- ECMAScript glue: results of boa calls on values whose kind was just tested
-    E + "js_to_data_value|unwrap|unwrap|1": "as_boolean() on a value whose get_type() is Boolean",
-    E + "js_to_data_value|unwrap|unwrap|2": "as_number() on a value whose get_type() is Number",
-    E + "js_to_data_value|unwrap|unwrap|3": "JsArray::from_object after obj.is_array()",
-    E + "js_to_data_value|unwrap|unwrap|4": "length of a genuine Array object (is_array() is false for proxies) is an own data property",
-    E + "call_action|unwrap|unwrap|1": "JsArray::from_object after obj.is_array()",
-    E + "call_action|unwrap|unwrap|2": "length of a genuine Array object is an own data property",
-    E + "in_configuration|unwrap|unwrap|1": "FsmJSWrapper is inserted into the context by add_functions, which interpret() runs before any content",
-    E + "new|unwrap|unwrap|1": "ContextBuilder::build() with default hooks does not fail",
-    EI + "execute_for_each|unwrap|unwrap|1": "as_object() on a value whose get_type() is Object",
-    EI + "execute_for_each|unwrap|unwrap|2": "right operand of `is_some() &&`",
-    EI + "execute_for_each|assert|overflow:Add|1": "idx counts iterations over an in-memory array",
+    'fsm::Fsm::get_state_by_id|assert|overflow:Sub|1':
+        'ids stored in the model are allocated by the reader/deserializer together with the entry they name (R04.5, W1); callers filter the null id 0 (C01 R01.3/R01.4, Fsm::executeContent)',
+    'fsm::Fsm::get_state_by_id|unwrap|unwrap<-get|1':
+        'ids stored in the model are allocated by the reader/deserializer together with the entry they name (R04.5, W1); callers filter the null id 0 (C01 R01.3/R01.4, Fsm::executeContent)',
+    'fsm::Fsm::get_state_by_id_mut|assert|overflow:Sub|1':
+        'ids stored in the model are allocated by the reader/deserializer together with the entry they name (R04.5, W1); callers filter the null id 0 (C01 R01.3/R01.4, Fsm::executeContent)',
+    'fsm::Fsm::get_state_by_id_mut|unwrap|unwrap<-get_mut|1':
+        'ids stored in the model are allocated by the reader/deserializer together with the entry they name (R04.5, W1); callers filter the null id 0 (C01 R01.3/R01.4, Fsm::executeContent)',
+    'fsm::Fsm::get_transition_by_id|unwrap|unwrap<-get|1':
+        'ids stored in the model are allocated by the reader/deserializer together with the entry they name (R04.5, W1); callers filter the null id 0 (C01 R01.3/R01.4, Fsm::executeContent)',
+    'fsm::Fsm::get_transition_by_id_mut|unwrap|unwrap<-get_mut|1':
+        'ids stored in the model are allocated by the reader/deserializer together with the entry they name (R04.5, W1); callers filter the null id 0 (C01 R01.3/R01.4, Fsm::executeContent)',
+    '<datamodel::ecma_script::ECMAScriptDatamodel as datamodel::Datamodel>::executeContent|unwrap|unwrap<-get|1':
+        'ids stored in the model are allocated by the reader/deserializer together with the entry they name (R04.5, W1); callers filter the null id 0 (C01 R01.3/R01.4, Fsm::executeContent)',
+    '<executable_content::If as executable_content::ExecutableContent>::execute|unwrap|unwrap<-get|1':
+        'guarded by `self.content != 0`; ids stored in the model are allocated by the reader/deserializer together with the entry they name (R04.5, W1); callers filter the null id 0 (C01 R01.3/R01.4, Fsm::executeContent)',
+    '<executable_content::If as executable_content::ExecutableContent>::execute|unwrap|unwrap<-get|2':
+        'guarded by `self.else_content != 0`; ids stored in the model are allocated by the reader/deserializer together with the entry they name (R04.5, W1); callers filter the null id 0 (C01 R01.3/R01.4, Fsm::executeContent)',
+    'fsm::HashTable::<K, T>::get|unwrap|unwrap<-get|1':
+        'both callers (enterStates, addDescendantStatesToEnter/getEffectiveTargetStates) test has() first (C06 R06.3/R06.4)',
+    'fsm::List::<T>::tail|vec-remove|remove|1':
+        'only caller findLCCA passes [t.source] ++ tstates, which is never empty',
+    'fsm::Queue::<T>::dequeue|unwrap|unwrap<-pop_front|1':
+        'only caller mainEventLoop dequeues on the not-empty branch (C03 R03.1)',
+    'fsm::Fsm::invoke|unwrap|unwrap<-as_ref|1':
+        'GlobalData.executor is set in the session thread before interpret() and never cleared',
+    'event_io_processor::scxml_event_io_processor::ScxmlEventIOProcessor::send_to_session|diverge|panic!|1':
+        'GlobalData.executor is set in the session thread before interpret() and never cleared',
+    'fsm::Fsm::mainEventLoop|unwrap|unwrap<-recv|1':
+        "recv() fails only when every Sender is dropped; the session's own GlobalData.externalQueue holds one for the whole run",
+    'fsm::Fsm::returnDoneEvent|diverge|panic!|1':
+        'caller_invoke_id and parent_session_id are copied together from the Fsm built by FsmExecutor::execute_with_data*, which sets both or neither',
+    'executable_content::parse_duration_to_milliseconds|unwrap|unwrap<-next_number|1':
+        'value_result.is_err() returned above',
+    'event_io_processor::http_event_io_processor::rocket_receive_event|unwrap|unwrap<-as_mut|1':
+        'param_values was set to Some on the line before when it was None',
+    'event_io_processor::http_event_io_processor::rocket_welcome|unwrap|unwrap<-get|1':
+        'k iterates es.sessions.keys() of the same locked map',
+    'event_io_processor::http_event_io_processor::escape_html|assert|overflow:Mul|1':
+        'text.len() * 2 of an in-memory string cannot overflow usize',
+    '<executable_content::DefaultExecutableContentTracer as executable_content::ExecutableContentTracer>::print_name_and_attributes|assert|overflow:Mul|1':
+        'trace_depth is the nesting depth of executable content',
+    '<executable_content::DefaultExecutableContentTracer as executable_content::ExecutableContentTracer>::print_name_and_attributes|assert|bounds|1':
+        'get_type() returns one of the nine TYPE_* constants 0..=8 and TYPE_NAMES has nine entries (W1 checks the constant table)',
+    '<executable_content::DefaultExecutableContentTracer as executable_content::ExecutableContentTracer>::print_sub_content|assert|overflow:Mul|1':
+        'trace_depth is the nesting depth of executable content',
+    '<executable_content::DefaultExecutableContentTracer as executable_content::ExecutableContentTracer>::print_sub_content|assert|overflow:Sub|1':
+        'decrement pairs with the increment a few lines above in the same call',
+    '<executable_content::DefaultExecutableContentTracer as executable_content::ExecutableContentTracer>::print_sub_content|assert|overflow:Mul|2':
+        'trace_depth is the nesting depth of executable content',
+    'executable_content::DefaultExecutableContentTracer::trace|assert|overflow:Mul|1':
+        'trace_depth is the nesting depth of executable content',
+    'datamodel::ecma_script::ECMAScriptDatamodel::js_to_data_value|unwrap|unwrap<-as_boolean|1':
+        'as_boolean() on a value whose get_type() is Boolean',
+    'datamodel::ecma_script::ECMAScriptDatamodel::js_to_data_value|unwrap|unwrap<-as_number|1':
+        'as_number() on a value whose get_type() is Number',
+    'datamodel::ecma_script::ECMAScriptDatamodel::js_to_data_value|unwrap|unwrap<-from_object|1':
+        'JsArray::from_object after obj.is_array()',
+    'datamodel::ecma_script::ECMAScriptDatamodel::js_to_data_value|unwrap|unwrap<-length|1':
+        'length of a genuine Array object (is_array() is false for proxies) is an own data property',
+    'datamodel::ecma_script::ECMAScriptDatamodel::call_action|unwrap|unwrap<-from_object|1':
+        'JsArray::from_object after obj.is_array()',
+    'datamodel::ecma_script::ECMAScriptDatamodel::call_action|unwrap|unwrap<-length|1':
+        'length of a genuine Array object is an own data property',
+    'datamodel::ecma_script::ECMAScriptDatamodel::in_configuration|unwrap|unwrap<-get_data|1':
+        'FsmJSWrapper is inserted into the context by add_functions, which interpret() runs before any content',
+    'datamodel::ecma_script::ECMAScriptDatamodel::new|unwrap|unwrap<-build|1':
+        'ContextBuilder::build() with default hooks does not fail',
+    '<datamodel::ecma_script::ECMAScriptDatamodel as datamodel::Datamodel>::execute_for_each|unwrap|unwrap<-as_object|1':
+        'as_object() on a value whose get_type() is Object',
+    '<datamodel::ecma_script::ECMAScriptDatamodel as datamodel::Datamodel>::execute_for_each|unwrap|unwrap<-enumerable|1':
+        'right operand of `is_some() &&`',
+    '<datamodel::ecma_script::ECMAScriptDatamodel as datamodel::Datamodel>::execute_for_each|assert|overflow:Add|1':
+        'idx counts iterations over an in-memory array',
 }
